@@ -195,6 +195,7 @@ Proof.
     cbn [lstep] in Hl. destruct (rpc st) as [|s [i|]|]; try discriminate. apply some_inj in Hl. subst st'.
     eapply invt_frame; [exact IT|reflexivity|]. intro s'. rst. slot_cases s' s E; rst; auto.
   - eapply invt_RSignal; eassumption.
+  - cbn [lstep] in Hl. destruct (wpc st); [|discriminate]. apply some_inj in Hl. subst st'. exact IT.
 Qed.
 
 (** ---- wake-up invariants ---- *)
@@ -438,6 +439,7 @@ Proof.
     + destruct (is_nil (parked1 (slots st s))) eqn:Hn; [|discriminate]. apply is_nil_true in Hn. apply some_inj in Hl. subst st'.
       constructor; rst; try assumption.
       intros s' Hp. destruct (W1 s' Hp) as [X|[X|[X|X]]]; auto. inversion X; subst; congruence.
+  - cbn [lstep] in Hl. destruct (wpc st); [|discriminate]. apply some_inj in Hl. subst st'. exact IW.
 Qed.
 
 End RingInv2.
